@@ -55,7 +55,7 @@ func c06Unit(depth, shard, nshards int) vh.Unit {
 			// de-duplicate session states (the same reachable state needs probing once)
 			{
 				pw := build()
-				k := fmt.Sprintf("%d|%s", vsched.Elapsed(), poolDigest(pw, cast))
+				k := fmt.Sprintf("%d|%s|%s", vsched.Elapsed(), poolDigest(pw, cast), vh.StateKey(pw.Raw))
 				if seenState[k] {
 					continue
 				}
